@@ -647,9 +647,9 @@ def generate(ctx):
             names = [n for n in _MISSING_OPS if n in CATALOGUE]
             ctx.tally('workload', 'missing_runs')
         else:
-            spec = F.random_spec(rng, max_rows=5, max_cols=6, dtypes=_DTYPES,
+            spec = F.random_spec(rng, max_rows=5, max_cols=7, dtypes=_DTYPES,
                                  row_kinds=['auto', 'int', 'str', 'negint', 'IndexDate', 'hier2', 'float'],
-                                 col_kinds=['str', 'int', 'auto', 'hier2', 'negint'])
+                                 col_kinds=['str', 'int', 'auto', 'hier2', 'negint'], homog_p=0.12)
             names = rng.sample(OPS, 14)
             ctx.tally('workload', 'general')
             if 'object' in spec.dtypes and rng.random() < 0.4:
